@@ -186,7 +186,10 @@ def run(repo, rep):
                 probs.append('data set sent is %s' % fl.get('data_set'))
         if sn[0].args[1] != 'ctx.id':
             probs.append('request sent on context %s' % sn[0].args[1])
-        if fl.get('message_id') != f.params[3]:
+        par_ = f.params[3]
+        unset_ = any(cn in ('+%s is None' % par_, '-%s is not None' % par_) for cn in sn[0].conds)
+        # (a message id the caller left out -- ``msg_id=None`` -- may be chosen by the library; one that was given is used as given)
+        if fl.get('message_id') != par_ and not unset_:
             probs.append('message id is %s' % fl.get('message_id'))
     if n_ret < 2:
         probs.append('only %d return paths' % n_ret)
